@@ -859,7 +859,12 @@ def _rebin_family(ctx):
     for n in range(1, ctx.n(30, 41)):
         x = np.arange(float(n))
         for F in range(1, ctx.n(79, 121)):
-            r = rebin(x, (n * F,), sample=True)
+            try:
+                r = rebin(x, (n * F,), sample=True)
+            except Exception as e:      # an exception on a documented request is an answer, not a harness crash
+                ctx.violate('rebin:sample:exception', 'rebin(arange(%d.), (%d,), sample=True) raised %s: %s' % (n, n * F, type(e).__name__, str(e)[:120]),
+                            {'stream': 'rebin', 'kind': 'family', 'shape': [n], 'x': [float(i) for i in range(n)], 'd': [n * F], 'sample': True, 'dtype': 'float64'})
+                return fails
             ctx.evaluations += 1
             want = np.repeat(x, F)
             if r.shape != want.shape or not np.array_equal(r, want):
@@ -893,7 +898,12 @@ def _rebin_interp_boundary(ctx):
         sc = scale_of(x)
         for F in range(2, ctx.n(79, 121)):
             d = n * F
-            r = rebin(xa, (d,))
+            try:
+                r = rebin(xa, (d,))
+            except Exception as e:
+                ctx.violate('rebin:interp:exception', 'rebin of %d points to %d raised %s: %s' % (n, d, type(e).__name__, str(e)[:120]),
+                            {'stream': 'rebin', 'kind': 'interp-boundary', 'shape': [n], 'x': x, 'd': [d], 'sample': False, 'dtype': 'float64'})
+                return
             ctx.evaluations += 1
             f = n / d
             rl = r.tolist()
